@@ -18,7 +18,10 @@
 (* coordinates.  Pure boundary contact is an EITHER band as in Cache.tla / Assignment.tla.                      *)
 EXTENDS Integers, Sequences, FiniteSets, TLC
 
-CONSTANTS HistBand      \* TRUE: a DynamicObstacle's history may stay where it was under translate_rotate (docstrings silent)
+CONSTANTS HistBand,     \* TRUE: a DynamicObstacle's history may stay where it was under translate_rotate (docstrings silent)
+          StrictReassign \* TRUE: a repeated assignment must also clear registrations that no recorded relation backs any more
+                         \* (update_initial_state / update_prediction / a cut-out dropped the relation: obstacle-level calls cannot
+                         \* reach the registries - silent, same band as in RemoveObstacle); FALSE: such entries may stay
 
 C  == INSTANCE Cache
 A  == INSTANCE Assignment
@@ -125,11 +128,14 @@ AssignW(W, Sel, a, hasP, p) ==
         rel(o) == AssignRel(W, W.ob[o], Ts(o), GRel(W, o, hasP, p))
         dyn    == {o \in Sel : IsDyn(W.ob[o])}
         sta    == Sel \ dyn
+        (* a registration being re-assigned goes if the previous recorded relation backs it; an unbacked one is silent *)
+        goesS(l, o) == StrictReassign \/ l \in W.ob[o].rel.is \/ ~(hasP /\ o \in p.regS[l])
+        goesD(l, x) == StrictReassign \/ l \in RelAt(W.ob[x[2]].rel, W.ob[x[2]].t0, x[1]) \/ ~(hasP /\ x \in p.regD[l])
     IN [W EXCEPT !.ob = [o \in W.O |-> IF o \in Sel THEN [W.ob[o] EXCEPT !.rel = rel(o)] ELSE W.ob[o]],
                  (* the registries are exactly the inverse of the shape relation at the assigned time steps *)
-                 !.regS = [l \in LanU |-> IF l \in W.L THEN (W.regS[l] \ sta) \cup {o \in sta : l \in rel(o).is} ELSE {}],
+                 !.regS = [l \in LanU |-> IF l \in W.L THEN {o \in W.regS[l] : ~(o \in sta /\ goesS(l, o))} \cup {o \in sta : l \in rel(o).is} ELSE {}],
                  !.regD = [l \in LanU |-> IF l \in W.L
-                                          THEN {x \in W.regD[l] : ~(x[2] \in dyn /\ x[1] \in Ts(x[2]))} \cup
+                                          THEN {x \in W.regD[l] : ~(x[2] \in dyn /\ x[1] \in Ts(x[2]) /\ goesD(l, x))} \cup
                                                UNION {{<<t, o>> : t \in {u \in Ts(o) : l \in RelAt(rel(o), W.ob[o].t0, u)}} : o \in dyn}
                                           ELSE {}]]
 
